@@ -195,8 +195,7 @@ def run(ctx):
                 case = {'map': e['file'], 'entry': e, 'gen_seed': seed, 'params': kw, 'loop_id': L}
                 judge(ctx, doc, text, L, case, sigs)
                 n += 1
-            if k == 0 and len(doc.recs) < 60:
-                ctx.case(n=0, sample={'map': label, 'loop_ids': ids, 'text_head': text[:300]})
+            ctx.sample({'map': label, 'loop_ids': ids, 'segments': len(doc.recs), 'text_head': text[:300]})
     ctx.case(n=n, sigs=sorted(sigs))
 
 
